@@ -177,6 +177,32 @@ def judge(expr: str) -> Tuple[str, List[str], Optional[str]]:
     return "accepted", list(AUDIT), detail
 
 
+def judge_factory(expr: str) -> Tuple[str, List[str], Optional[str]]:
+    """The same question asked where users ask it: the expression as a `derive.parameter_sweep` parameter of a
+    node configuration (loader -> sweep factory -> evaluator).  Accepted = the pipeline is constructed."""
+    from semantiva.pipeline import Pipeline
+
+    if not _HOOKED[0]:
+        sys.addaudithook(_hook)
+    cfg = [{"processor": "VPairSource", "derive": {"parameter_sweep": {
+        "parameters": {"a": expr}, "variables": {"x": {"values": [3.0]}, "t": {"values": [2.0]}},
+        "collection": "FloatDataCollection"}}}]
+    try:
+        p = Pipeline(cfg)
+    except Exception as exc:
+        return "rejected", [], f"{type(exc).__name__}: {exc}"[:160]
+    del AUDIT[:]
+    _HOOKED[0] = True
+    detail = None
+    try:
+        p.process()
+    except BaseException as exc:  # noqa: BLE001 - the element may not accept a non-numeric value
+        detail = type(exc).__name__
+    finally:
+        _HOOKED[0] = False
+    return "accepted", list(AUDIT), detail
+
+
 def replay_chunk(cases: List[Dict[str, Any]]):
     out = {"n": 0, "unrealisable": 0, "viol": [], "accepted": 0, "rejected": 0}
     for c in cases:
@@ -200,6 +226,16 @@ def replay_chunk(cases: List[Dict[str, Any]]):
                                 f"{expr!r} contains a non-whitelisted element ({path}) but was accepted for compilation", {"expr": expr, "case": c}))
         if audit:
             out["viol"].append((f"evaluation-escapes:{path}", f"evaluating accepted {expr!r} raised audit events {audit}", {"expr": expr}))
+        # the same expression as a sweep parameter of a node configuration
+        fverdict, faudit, fdetail = judge_factory(expr)
+        hole_chain = "/".join(f"{s['k']}.{s['f']}" for s in c["stack"])
+        if not c["safe"] and fverdict == "accepted":
+            out["viol"].append((f"accepted-forbidden:sweep-factory:via={hole_chain or 'root'}",
+                                f"{expr!r} contains a non-whitelisted element ({path}) but a parameter_sweep with this expression was built", {"expr": expr, "case": c}))
+        if c["safe"] and fverdict == "rejected" and "Invalid parametric expression" in (fdetail or ""):
+            out["viol"].append((f"over-rejection:sweep-factory:{path}", f"{expr!r} uses only whitelisted syntax but the sweep factory rejected it: {fdetail}", {"expr": expr, "case": c}))
+        if faudit:
+            out["viol"].append((f"evaluation-escapes:sweep-factory:{path}", f"running a sweep over accepted {expr!r} raised audit events {faudit}", {"expr": expr}))
     return out
 
 
@@ -207,9 +243,10 @@ ESCAPES = [
     "__import__('os').getcwd()", "().__class__.__mro__[1].__subclasses__()", "(lambda: 1)()", "[i for i in (1,)]",
     "f'{x}'", "(y := 1)", "x[0]", "x.real", "abs(*[x])", "open('/etc/passwd')", "getattr(x, 'real')", "eval('1')",
     "{1: 2}", "{1}", "x if x else __import__('sys')", "str(object=__import__('os').getcwd())", "globals()", "x @ t",
+    "[64, 64]", "[]", "{}", "set()", "(1, [2, 3])", "{'mode': 'fast'}",
     "not x", "x is t", "x in (t,)", "~x", "x << 1", "print(x)", "type(x)", "x.__class__", "[x][0]", "abs.__self__",
 ]
-HOSTS = ["abs({})", "max(x, {})", "round(x, ndigits={})", "str(object={})", "int({})", "(x + {})", "({} * t)", "(-{})",
+HOSTS = ["{}", "abs({})", "max(x, {})", "round(x, ndigits={})", "str(object={})", "int({})", "(x + {})", "({} * t)", "(-{})",
          "(x if {} else t)", "({} if x else t)", "(x if t else {})", "(x < {})", "({} < x)", "(x and {})", "(x, {})",
          "min(x, t, {})", "float(x={})", "bool({})", "(x ** {})", "(1 < x < {})"]
 
@@ -230,6 +267,12 @@ def corpus_check(run: core.Run) -> None:
                 run.violation(f"accepted-forbidden:corpus:{pos}",
                               f"escape idiom {esc!r} planted in {pos!r} gives {expr!r}: {verdict}"
                               + (f", audit events during evaluation {audit}" if audit else ""), {"expr": expr})
+            fverdict, faudit, _fd = judge_factory(expr)
+            if fverdict != "rejected":
+                pos = host.replace("{}", "<hole>")
+                run.violation(f"accepted-forbidden:sweep-factory:corpus:{pos}",
+                              f"escape idiom {esc!r} planted in {pos!r} gives {expr!r}: a parameter_sweep with this expression was built"
+                              + (f", audit events while running it {faudit}" if faudit else ""), {"expr": expr})
     run.evaluations += n
     run.extra["escape_corpus_expressions"] = n
     # acceptance must depend on the declared variables of THIS compilation, whatever was compiled before
